@@ -34,6 +34,25 @@ pub fn run(rng: &mut Rng, out: &mut Fails) {
                 if !ok { fail(out, "shuffle_two", "C19.shuffle_two.paired", format!("arr1={:?} arr2={:?}", keyed, other), format!("{:?} {:?}", a, b), "one common permutation".into()); }
             }
         }
+        // ties, signed zeros and NaN in one array, distinct tags in the other (both role assignments): the tag at a position names the
+        // original index, and the partner must be that index's element bit for bit
+        let tied: Vec<f64> = (0..n).map(|i| [0.0, -0.0, 1.5, 1.5, f64::NAN, -0.0, 0.0, 2.0][i % 8]).collect();
+        for tags_first in [false, true] {
+            let r = if tags_first { catch(|| shuffle_two(&other, &tied)).map(|(t, v)| (v, t)) } else { catch(|| shuffle_two(&tied, &other)) };
+            match r {
+                None => fail(out, "shuffle_two", "C19.shuffle_two.valid", format!("n={} (tied data)", n), "panic".into(), "paired permutation".into()),
+                Some((v, t)) => {
+                    let mut seen = vec![false; n];
+                    let mut ok = v.len() == n && t.len() == n;
+                    if ok { for p in 0..n {
+                        let i = (t[p] - 100.) as usize;
+                        if !(t[p] >= 100.) || i >= n || seen[i] || v[p].to_bits() != tied[i].to_bits() { ok = false; break; }
+                        seen[i] = true;
+                    } }
+                    if !ok { fail(out, "shuffle_two", "C19.shuffle_two.paired", format!("tied={:?} tags={:?} tags_first={}", tied, other, tags_first), format!("{:?} {:?}", v, t), "one common permutation (bitwise)".into()); }
+                }
+            }
+        }
         let nb = 1 + rng.below(5);
         match catch(|| bootstrap(&data, nb)) {
             None => fail(out, "bootstrap", "C19.bootstrap.valid", format!("{} n_bootstrap={}", inp, nb), "panic".into(), "resamples".into()),
